@@ -1,13 +1,14 @@
 CONSTANTS
   Alphabet <- L2
   Core <- L2Core
-  Mid <- L2Core
+  Mid <- L2Mid
   MaxAll = 3
-  MaxMid = 3
-  MaxCore = 3
+  MaxMid = 4
+  MaxCore = 6
   Wrappers <- Wrap2
   MaxWrap = 2
   MaxDeep = 2
+  DeepWraps = 0
 SPECIFICATION Spec
 INVARIANT Bounded
 INVARIANT Shape
